@@ -3,6 +3,7 @@
    Z, N, positive, nat stay the extracted inductive types.  No Extract Constant
    or Extract Inductive of our own. *)
 From Coq Require Import ExtrOcamlBasic.
-From Model Require Import Base Uni Notation.
+From Model Require Import Base Uni Notation Utf8 Inputrc.
 Extraction "rlmodel_core.ml"
-  dom escape unescape unescape_range convert_meta quote.
+  dom escape unescape unescape_range convert_meta quote
+  utf8_decode utf8_encode full_rune parse read_next.
